@@ -65,6 +65,9 @@ class CFG:
 
     def _exc_edges(self, nid):
         """implicit exception edge from a statement in a try body to the innermost handlers"""
+        st = self.nodes[nid].ast
+        if isinstance(st, ast.Pass) or (isinstance(st, ast.Assign) and isinstance(st.value, ast.Constant) and all(isinstance(t, ast.Name) for t in st.targets)):
+            return  # binding a literal to a local (or doing nothing) cannot raise
         if self._try_stack:
             for h in self._try_stack[-1]:
                 self._edge(nid, h, "exc")
